@@ -404,3 +404,38 @@ PROPS["C13"] = {
                          "c13.event-loops": 20, "c13.injector-notifies-checked": 500}},
     "assumptions": ["an unbounded 'eventually' is not decidable on a finite run: the verdict is taken when no run is pending any more (final, not a timeout)"],
 }
+
+
+def grid_job(name, variant, shards, cases, tl, max_cells, **kw):
+    j = {
+        "name": name, "bin": MM, "variant": variant, "shards": shards,
+        "args": ["--suite", "grid", "--seed", "{seed}", "--shard", "{shard}", "--shards", "{shards}", "--cases", str(cases), "--time-limit", str(tl),
+                 "--max-cells", str(max_cells), "--out", "{out}"],
+        "timeout": tl * 3 + 200,
+        "sanitizer": True,
+    }
+    j.update(kw)
+    return j
+
+
+_c10_base = c10_jobs
+
+
+def c10_jobs_full(tier):
+    q = tier != "thorough"
+    return _c10_base(tier) + [
+        grid_job("grid-miri", "miri", 10 if q else 16, 1 if q else 6, 60 if q else 2400, 12000 if q else 110000, miriflags=MIRI_SB),
+        grid_job("grid-asan", "asan", 3, 30 if q else 3000, 20 if q else 600, 10000000, env=ASAN_ENV, crash_is_violation=True),
+        mm("match-asan", "match", 30000 if q else 3000000, 20 if q else 600, shards=3, variant="asan", extra=["--props", "C10"]),
+    ]
+
+
+PROPS["C10"]["jobs"] = c10_jobs_full
+PROPS["C10"]["rule"] += ("; plus a size grid (1x1 ... 70000x4, cells around 100 KiB, needle around 2048, haystack around 65535) through all 12 entry points under Miri "
+                         "(Stacked Borrows: a reference that extends past its allocation is reported when it is formed) and AddressSanitizer")
+PROPS["C10"]["require"]["any"]["grid.shapes-run"] = 10
+
+_c02_base = PROPS["C02"]["jobs"]
+PROPS["C02"]["jobs"] = lambda tier: _c02_base(tier) + [
+    grid_job("grid-miri", "miri", 6 if tier != "thorough" else 16, 1 if tier != "thorough" else 4, 50 if tier != "thorough" else 2400, 6000 if tier != "thorough" else 110000, miriflags=MIRI_SB)]
+PROPS["C02"]["rule"] += "; the back-pointer walk additionally runs under Miri on a size grid"
